@@ -67,6 +67,7 @@ def verify_modules(modnames, tier='quick', prop=None, only=None):
     reg = Registry(modnames, prog)
     timeout = QUICK_TIMEOUT_MS if tier == 'quick' else THOROUGH_TIMEOUT_MS
     jobs, obl_meta, functions, errors, outside = [], {}, [], [], []
+    cover_jobs = []
     assumptions = list(reg.assumptions)
     for m in reg.top:
         for qual, ct in m.contracts.items():
@@ -97,6 +98,8 @@ def verify_modules(modnames, tier='quick', prop=None, only=None):
                                   source_sha1=prog.source_hash(qual) if ct.kind != 'lemma' else None,
                                   loops_with_invariant=sorted(ct.loops), gen_s=round(time.time() - t0, 3)))
             # vacuity: the precondition (with type invariants and axioms) must be satisfiable
+            for cname, hyps in ex.covers:
+                cover_jobs.append(('%s::cover[%s]' % (qual, cname), 0, to_smt2(list(ex.hyp_axioms) + hyps, z3.BoolVal(False)), 5000, False))
             for name, o in obls.items():
                 obl_meta[name] = dict(name=name, function=qual, kind=o.kind, clause=o.label, clause_text=o.clause_text,
                                       nqueries=len(o.queries), smt2_sample=None)
@@ -108,9 +111,16 @@ def verify_modules(modnames, tier='quick', prop=None, only=None):
                         obl_meta[name]['smt2_sample'] = smt2[-900:]
                     jobs.append((name, idx, smt2, timeout, True))
     results = {}
-    if jobs:
-        with multiprocessing.get_context('fork').Pool(min(16, len(jobs))) as pool:
-            for r in pool.imap_unordered(_solve, jobs, chunksize=1):
+    covers = []
+    if jobs or cover_jobs:
+        with multiprocessing.get_context('fork').Pool(min(16, len(jobs) + len(cover_jobs))) as pool:
+            for r in pool.imap_unordered(_solve, jobs + cover_jobs, chunksize=1):
+                if '::cover[' in r['name']:
+                    # a cover asks for satisfiability: `unsat` means the contract's precondition excludes every input (vacuous proof)
+                    covers.append(dict(name=r['name'], status={'sat': 'satisfiable', 'unsat': 'VACUOUS'}.get(r['status'], 'not refuted (solver: unknown)')))
+                    if r['status'] == 'unsat':
+                        errors.append('%s: precondition unsatisfiable, the proof would be vacuous' % r['name'])
+                    continue
                 results.setdefault(r['name'], []).append(r)
     obligations = []
     for name, meta in obl_meta.items():
@@ -126,7 +136,8 @@ def verify_modules(modnames, tier='quick', prop=None, only=None):
                 st, so = 'unknown', r['solver_output']
         meta.update(status=st, model=model, solver_output=so, backend='+'.join(sorted(backends)), time_s=t)
         obligations.append(meta)
-    return dict(obligations=obligations, functions=functions, errors=errors, outside_subset=outside, assumptions=assumptions)
+    return dict(obligations=obligations, functions=functions, errors=errors, outside_subset=outside, assumptions=assumptions,
+                covers=sorted(covers, key=lambda c: c['name']))
 
 
 def replay(spec, rec):
